@@ -6,6 +6,7 @@ from ..gen import cells as G
 from ..gen import maps as M
 from ..translate import labelfns as tr
 from ..translate import arith2
+from . import c09_keyopts
 
 SPEC = dict(
     manifest=dict(
@@ -370,6 +371,7 @@ def run(ctx):
     if ctx.search and src_search(ctx):
         return
     odd_key_types(ctx)
+    c09_keyopts.key_options(ctx)        # keys through the key_serializer= / key_deserializer= options
     # --- widths 1..3 exhaustive over key sets; insertion orders: all (w<=2, and w=3 in thorough) or 4 per set
     for n in (1, 2, 3):
         universe = list(range(1 << n))
@@ -496,3 +498,5 @@ def replay(ctx, payload):
     if 'ins' in inp:
         run_case(ctx, inp['n'], inp['vkind'], [tuple(x) for x in inp['ins']], [(k, b, tuple(r)) for k, b, r in inp.get('base', [])],
                  inp.get('tag', 'replay'))
+    elif 'key_serializer' in inp or 'history' in inp:
+        c09_keyopts.key_options(ctx)            # the key option histories (deterministic for the seed)
